@@ -541,3 +541,410 @@ def run_world(ctx, stratum, h, legacy_errs, obs_errs):
         if not is_event and getattr(o, n) is not after:
             return viol("value-unstable-after-assignment", st, "")
     return False
+
+
+# ======================================================================================
+# stratum 'churn': the POPULATION of handlers changes during the history
+# ======================================================================================
+#
+# The strata above only ever add listeners.  Here registrations and removals of every dynamic
+# mechanism are interleaved with the assignments: on_trait_change for one name / several names
+# in one call / an extended name through an owner (function of arity 0-4, bound method,
+# priority=True), on_trait_change with NO name (object-level "anytrait" form, spelled with the
+# name omitted / None / 'anytrait'; function or bound method), observe for one name / several
+# names / through an owner -- each taken away again with remove=True (one name at a time or
+# several in one call) or, for bound methods, by dropping the last reference to the owner, and
+# possibly put back later.  Names with and without magic-named static handlers take part, so a
+# name may pass through every state: never had a trait-level listener, has some, has lost the
+# LAST one while object-level listeners remain, and the reverse.
+#
+# The oracle is the statement's: after each assignment that counts as a change every CURRENTLY
+# registered handler applying to (object, name) was called exactly once, every handler that was
+# removed (or registered for another name / object) not at all; old/new truthful; exception
+# channels.  Registering and removing must not call anything.
+
+CHURN_NAMES = ["a", "b", "c", "d"]
+CHURN_TRAIT_LEVEL = ["otc", "otcm", "obs", "nested", "otcnested"]
+CHURN_OBJECT_LEVEL = ["otcall", "otcallm"]
+CHURN_NEW = ["otc"] * 3 + ["otcm"] + ["otcall"] * 3 + ["otcallm"] + ["obs"] * 3 + ["nested", "otcnested"]
+ANY_SPELLINGS = {"omitted": (), "None": (None,), "anytrait": ("anytrait",)}
+
+
+class ChurnHolder:
+    """owner of a bound-method listener; dropping the last reference to it is a removal"""
+    def __init__(self, fn):
+        self.fn = fn
+
+    def handle(self, obj, name, old, new):
+        self.fn(obj, name, old, new)
+
+
+def run_churn(ctx, h, legacy_errs, obs_errs):
+    rng = ctx.rng("churn", h)
+    M = object()
+    LOG = []                                     # (reg, obj|M, old|M, new|M, told|M)
+
+    def rec(reg, obj=M, old=M, new=M, told=M):
+        if told is not M and (told == "trait_added" or str(told).endswith("_items")):
+            return
+        LOG.append((reg, obj, old, new, told))
+        if reg["raises"]:
+            ctx.count("churn_raising_handler_calls")
+            raise reg["exc"]("boom")
+
+    def mk_static(r, ar):
+        return [lambda self: rec(r, self), lambda self, new: rec(r, self, M, new),
+                lambda self, old, new: rec(r, self, old, new),
+                lambda self, told, old, new: rec(r, self, old, new, told)][ar]
+
+    # ---- the class ----------------------------------------------------------------------
+    names = CHURN_NAMES[:rng.choice([2, 3, 3, 4])]
+    defs, ns, static_regs = {}, {}, {}
+    for n in names:
+        kind = rng.choice(KINDS if rng.random() < 0.8 else list(EVENTS))
+        defs[n] = {"kind": kind, "mode": rng.choice(MODES), "event": kind in EVENTS}
+        ns[n] = B.KINDS[kind](defs[n]["mode"])
+    cfg_static = {}
+    for n in names:
+        if rng.random() < 0.25:
+            ar = rng.randrange(0, 4)
+            sfx = "fired" if defs[n]["event"] and rng.random() < 0.5 else "changed"
+            sreg = {"id": "static:" + n, "mech": "static", "raises": False, "names": {n}, "i": None}
+            static_regs[n] = sreg
+            ns["_%s_%s" % (n, sfx)] = mk_static(sreg, ar)
+            cfg_static[n] = (ar, sfx)
+    any_reg = None
+    if rng.random() < 0.2:
+        any_reg = {"id": "static:anytrait", "mech": "any", "raises": False, "names": set(names), "i": None}
+        ns["_anytrait_changed"] = lambda self, told, old, new: rec(any_reg, self, old, new, told)
+    K = MetaHasTraits("Churn", (HasTraits,), ns)
+    nobj = rng.choice([1, 1, 2])
+    objs = [K() for _ in range(nobj)]
+    owners = [Owner(child=o) for o in objs]
+    regs = []                                    # dynamic registrations, live or not
+    ever_tl = set()                              # (i, n) that ever had a dynamic trait-level listener
+    ever_ol = set()                              # i that ever had an object-level listener
+    was_live = set()                             # (reg id, i, n): that handler was once registered there
+    touched = set()
+    pools = {}
+    trace = []
+    one_raises = rng.random() < 0.35
+    cfg = {"stratum": "churn", "traits": {n: (d["kind"], d["mode"].name) for n, d in defs.items()},
+           "static": cfg_static, "anytrait": any_reg is not None, "objects": nobj}
+
+    def live_for(i, n):
+        out = []
+        for r in regs:
+            if r["i"] == i and (n in r["names"] or (r["all"] and r["names"])):
+                out.append(r)
+        return out
+
+    def pop_class(i, n):
+        """structural description of who listens to (object i, name n) and who used to"""
+        lv = live_for(i, n)
+        if n in static_regs or any_reg is not None:
+            tl = "static"
+        elif any(not r["all"] for r in lv):
+            tl = "live"
+        else:
+            tl = "left" if (i, n) in ever_tl else "never"
+        ol = "live" if any(r["all"] for r in lv) else ("left" if i in ever_ol else "never")
+        return tl, ol
+
+    def viol(complaint, i, n, msg):
+        d = defs.get(n)
+        mode = "-" if d is None else ("event" if d["event"] else d["mode"].name)
+        pc = "-" if n is None else "trait-level=%s,object-level=%s" % pop_class(i, n)
+        ctx.violation("churn:%s/%s/%s" % (complaint, pc, mode),
+                      "%s: %s | config %r | history %r" % (complaint, msg, cfg, trace),
+                      {"config": cfg, "history": list(trace)})
+        return True
+
+    def new_reg(mech, i):
+        reg = {"id": "%s#%d" % (mech, len(regs)), "mech": mech, "i": i, "names": set(),
+               "all": mech in CHURN_OBJECT_LEVEL, "raises": False, "exc": rng.choice(B.EXCS),
+               "priority": rng.random() < 0.2, "holder": None, "units": [], "spelling": rng.choice(sorted(ANY_SPELLINGS))}
+        if one_raises and not any(r["raises"] for r in regs) and rng.random() < 0.5:
+            reg["raises"] = True
+        if mech in ("otcm", "otcallm"):
+            reg["holder"] = ChurnHolder(lambda obj, told, old, new: rec(reg, obj, old, new, told))
+        elif mech in ("obs", "nested"):
+            reg["fn"] = lambda e: rec(reg, e.object, e.old, e.new, e.name)
+        else:
+            reg["arity"] = ar = rng.randrange(0, 5)
+            reg["fn"] = [lambda: rec(reg), lambda new: rec(reg, M, M, new),
+                         lambda told, new: rec(reg, M, M, new, told),
+                         lambda obj, told, new: rec(reg, obj, M, new, told),
+                         lambda obj, told, old, new: rec(reg, obj, old, new, told)][ar]
+        regs.append(reg)
+        return reg
+
+    def call(reg, spec, remove):
+        """one registration / removal call of the library for handler `reg`; `spec` is the name
+        argument: a name, a 'n1, n2' string, a list of names, or None for the object-level form"""
+        o, mech = objs[reg["i"]], reg["mech"]
+        f = reg["holder"].handle if reg["holder"] is not None else reg["fn"]
+        kw = {"remove": True} if remove else {}
+        if reg["priority"] and not remove and mech != "obs" and mech != "nested":
+            kw["priority"] = True
+        if mech in CHURN_OBJECT_LEVEL:
+            o.on_trait_change(f, *ANY_SPELLINGS[reg["spelling"]], **kw)
+        elif mech in ("otc", "otcm"):
+            o.on_trait_change(f, spec, **kw)
+        elif mech == "obs":
+            o.observe(f, spec, **kw)
+        elif mech in ("nested", "otcnested"):
+            if isinstance(spec, list):
+                pre = ["child." + x for x in spec]
+            else:
+                pre = "child." + spec
+            if mech == "nested":
+                owners[reg["i"]].observe(f, pre, **kw)
+            else:
+                owners[reg["i"]].on_trait_change(f, pre, **kw)
+        else:
+            raise AssertionError(mech)
+
+    def do_register():
+        # put a removed handler back / extend a live one to further names / a brand-new handler
+        dead = [r for r in regs if not r["names"] and (r["holder"] is not None or "fn" in r)]
+        ext = [r for r in regs if r["names"] and not r["all"] and len(r["names"]) < len(names)]
+        x = rng.random()
+        if dead and x < 0.25:
+            reg, how = rng.choice(dead), "again"
+        elif ext and x < 0.45:
+            reg, how = rng.choice(ext), "extend"
+        else:
+            reg, how = new_reg(rng.choice(CHURN_NEW), rng.randrange(nobj)), "new"
+        if reg["all"]:
+            ns_, spec, form = ["*"], None, "any:" + reg["spelling"]
+        else:
+            free = [n for n in names if n not in reg["names"]]
+            ns_ = rng.sample(free, 2 if len(free) > 1 and rng.random() < 0.25 else 1)
+            if len(ns_) == 1:
+                spec, form = ns_[0], "one"
+            elif reg["mech"] in ("otc", "otcm", "obs") and rng.random() < 0.5:
+                spec, form = ", ".join(ns_), "comma"
+            else:
+                spec, form = list(ns_), "list"
+        try:
+            call(reg, spec, False)
+        except Exception as e:
+            trace.append("reg %s o%d %r raised %s" % (reg["id"], reg["i"], ns_, type(e).__name__))
+            return viol("registration-raised:" + type(e).__name__, reg["i"], None, "registering let %r escape" % (e,))
+        trace.append("reg(%s,%s) %s o%d %s%s" % (how, form, reg["id"], reg["i"], ",".join(ns_),
+                                                 " raises" if reg["raises"] else ""))
+        reg["names"].update(ns_)
+        if form == "list":
+            # a list registers each of its names separately
+            reg["units"].extend({"names": [n], "spec": n, "form": "one"} for n in ns_)
+        else:
+            reg["units"].append({"names": list(ns_), "spec": spec, "form": form})
+        for n in ns_:
+            was_live.add((reg["id"], reg["i"], n))
+            if reg["all"]:
+                ever_ol.add(reg["i"])
+            else:
+                ever_tl.add((reg["i"], n))
+        ctx.count("churn_registrations")
+        ctx.count("churn_registrations_" + ("object_level" if reg["all"] else "trait_level"))
+        if how == "again":
+            ctx.count("churn_handlers_registered_again_after_removal")
+        if len(ns_) > 1:
+            ctx.count("churn_registrations_of_several_names_in_one_call")
+        return False
+
+    def do_remove():
+        # a removal repeats the name argument of a registration call (what a removal spelled
+        # differently from the registration takes away is not the statement's business); names
+        # registered one by one or through a list may also leave several at a time through a list
+        livers = [r for r in regs if r["names"]]
+        if not livers:
+            return False
+        reg = rng.choice(livers)
+        i = reg["i"]
+        before_tl = {n: pop_class(i, n) for n in names}
+        if reg["holder"] is not None and rng.random() < 0.3:
+            reg["holder"] = None                 # the owner dies: the listener leaves by itself
+            gone = sorted(reg["names"])
+            del reg["units"][:]
+            trace.append("drop owner of %s o%d" % (reg["id"], i))
+            ctx.count("churn_removals_by_dropping_the_owner")
+        else:
+            singles = [u for u in reg["units"] if u["form"] == "one"]
+            if len(singles) > 1 and rng.random() < 0.3:
+                us = rng.sample(singles, 2)
+                spec, form = [u["spec"] for u in us], "list"
+            else:
+                us = [rng.choice(reg["units"])]
+                spec, form = us[0]["spec"], us[0]["form"]
+            gone = [n for u in us for n in u["names"]]
+            try:
+                call(reg, spec, True)
+            except Exception as e:
+                trace.append("unreg %s o%d %r raised %s" % (reg["id"], i, gone, type(e).__name__))
+                return viol("removal-raised:" + type(e).__name__, i, None, "removing let %r escape" % (e,))
+            for u in us:
+                reg["units"].remove(u)
+            trace.append("unreg(%s) %s o%d %s" % (form, reg["id"], i, ",".join(gone)))
+            if len(gone) > 1:
+                ctx.count("churn_removals_of_several_names_in_one_call")
+        reg["names"].difference_update(gone)
+        ctx.count("churn_removals")
+        ctx.count("churn_removals_" + ("object_level" if reg["all"] else "trait_level"))
+        for n in names:
+            a, b = before_tl[n], pop_class(i, n)
+            if a[0] == "live" and b[0] == "left":
+                ctx.count("churn_last_trait_level_listener_removed")
+                if b[1] == "live":
+                    ctx.count("churn_last_trait_level_listener_removed_while_object_level_listeners_remain")
+            if a[1] == "live" and b[1] == "left" and n == names[0]:
+                ctx.count("churn_last_object_level_listener_removed")
+                if any(pop_class(i, m)[0] == "live" for m in names):
+                    ctx.count("churn_last_object_level_listener_removed_while_trait_level_listeners_remain")
+        return False
+
+    ctx.count("churn_histories")
+    nsteps = 22
+    for step in range(nsteps):
+        del LOG[:], legacy_errs[:], obs_errs[:]
+        x = rng.random()
+        if step < 3:
+            opk = "reg" if x < 0.7 else "set"
+        else:
+            opk = "set" if x < 0.55 else "read" if x < 0.60 else "reg" if x < 0.78 else "unreg"
+        if opk in ("reg", "unreg"):
+            if (do_register if opk == "reg" else do_remove)():
+                return True
+            # (an object-level handler whose signature has no name cannot tell a 'trait_added'
+            # event, which creating an instance trait may legitimately fire, from a change)
+            heard = [e for e in LOG if not (e[0].get("all") and e[4] is M)]
+            if heard:
+                return viol("%s-notified" % ("registration" if opk == "reg" else "removal"), 0, None,
+                            "%s called %r" % (opk, [e[0]["id"] for e in heard]))
+            if legacy_errs or obs_errs:
+                return viol("%s-exception-channel" % ("registration" if opk == "reg" else "removal"), 0, None,
+                            short((legacy_errs or obs_errs)[0], 200))
+            continue
+        # where: prefer (object, name) pairs whose population has changed
+        hot = sorted(ever_tl | {(i, n) for i in ever_ol for n in names})
+        if hot and rng.random() < 0.6:
+            i, n = rng.choice(hot)
+        else:
+            i, n = rng.randrange(nobj), rng.choice(names)
+        o, d = objs[i], defs[n]
+        is_event = d["event"]
+        if opk == "read":
+            if is_event:
+                continue
+            trace.append("read o%d.%s" % (i, n))
+            v0 = getattr(o, n)
+            touched.add((i, n))
+            ctx.ev()
+            ctx.count("churn_reads")
+            if LOG:
+                return viol("read-notified", i, n, "a read called %r" % [e[0]["id"] for e in LOG])
+            if getattr(o, n) is not v0:
+                return viol("read-not-stable", i, n, "two consecutive reads returned different objects")
+            continue
+        if not pools:
+            pools.update(B.pools())
+        v = rng.choice(pools[d["kind"]])
+        unread = (i, n) not in touched and d["kind"] in KNOWN_DEFAULT and rng.random() < 0.5
+        trace.append("set%s o%d.%s = %s" % ("-unread" if unread else "", i, n, short(v, 30)))
+        if is_event:
+            before = Undefined
+        elif unread:
+            before = KNOWN_DEFAULT[d["kind"]]
+        else:
+            before = getattr(o, n)
+        if LOG:
+            return viol("read-notified", i, n, "reading the value before an assignment called handlers")
+        touched.add((i, n))
+        try:
+            setattr(o, n, v)
+            ok = True
+        except TraitError:
+            ok = False
+        except Exception as e:
+            return viol("assignment-raised:" + type(e).__name__, i, n, "assignment let %r escape" % (e,))
+        ctx.ev()
+        snap = list(LOG)
+        after = v if is_event else getattr(o, n)
+        if len(LOG) != len(snap):
+            return viol("read-notified", i, n, "reading the value after an assignment called handlers")
+        if not ok:
+            ctx.count("churn_assignments_rejected")
+            if snap:
+                return viol("rejected-notified", i, n, "a rejected assignment called %r" % [e[0]["id"] for e in snap])
+            if not is_event and after is not before:
+                return viol("rejected-changed-value", i, n, "value changed by a rejected assignment")
+            if legacy_errs or obs_errs:
+                return viol("rejected-exception-channel", i, n, "rejected assignment put something on an exception channel")
+            continue
+        exp = B.expected_change(is_event, d["mode"], before, after)
+        want = {r["id"]: r for r in live_for(i, n)}
+        if n in static_regs:
+            want[static_regs[n]["id"]] = static_regs[n]
+        if any_reg is not None:
+            want[any_reg["id"]] = any_reg
+        tl, ol = pop_class(i, n)
+        ctx.count("churn_assignments_" + ("notifying" if exp else "silent"))
+        if exp:
+            ctx.count("churn_changes_with_trait-level=%s,object-level=%s" % (tl, ol))
+            if is_event and tl == "left" and ol == "live":
+                ctx.count("churn_event_firings_with_trait-level=left,object-level=live")
+        ctx.sig("churn", d["kind"], d["mode"].name, tl, ol,
+                B.relation(before, after) if not is_event else "event", exp)
+        counts, by_id = {}, {}
+        for (r, eobj, eo, enew, told) in snap:
+            if eobj is not M and eobj is not o:
+                return viol("%s-called-on-other-object" % r["mech"], i, n,
+                            "assignment to o%d.%s called %s with another object" % (i, n, r["id"]))
+            if told is not M and told != n:
+                return viol("%s-told-other-name" % r["mech"], i, n,
+                            "assignment to o%d.%s: %s was told name %r" % (i, n, r["id"], told))
+            counts[r["id"]] = counts.get(r["id"], 0) + 1
+            by_id[r["id"]] = r
+        for rid in sorted(set(counts) - set(want)):
+            r = by_id[rid]
+            if r["i"] == i and ((rid, i, n) in was_live or (rid, i, "*") in was_live):
+                return viol("%s-called-after-removal" % r["mech"], i, n,
+                            "assignment to o%d.%s called %s, which had been removed" % (i, n, rid))
+            return viol("%s-called-but-not-registered" % r["mech"], i, n,
+                        "assignment to o%d.%s called %s (object o%s, names %r)"
+                        % (i, n, rid, r["i"], sorted(r["names"])))
+        for r in regs:
+            if r["id"] not in want and r["i"] == i and ((r["id"], i, n) in was_live or (r["id"], i, "*") in was_live):
+                ctx.count("churn_removed_handlers_seen_silent")
+        for rid in sorted(want):
+            c = counts.get(rid, 0)
+            ctx.count("churn_handler_obligations_checked")
+            if c != int(exp):
+                return viol("%s-called-%s-expected-%d" % (want[rid]["mech"], _bucket(c), int(exp)), i, n,
+                            "o%d.%s: %s called %d times; before=%s after=%s relation=%s"
+                            % (i, n, rid, c, short(before, 40), short(after, 40), B.relation(before, after)))
+        for (r, eobj, eo, enew, told) in snap:
+            if enew is not M:
+                ctx.count("churn_oldnew_checked")
+                if enew is not after:
+                    return viol("%s-new-not-readable-value" % r["mech"], i, n,
+                                "new=%s readable=%s" % (short(enew), short(after)))
+            if eo is not M:
+                if is_event:
+                    if eo is not Undefined:
+                        return viol("%s-event-old-not-Undefined" % r["mech"], i, n, "old=%s" % short(eo))
+                elif eo is not before:
+                    return viol("%s-old-not-previous-value" % r["mech"], i, n,
+                                "old=%s previous=%s" % (short(eo), short(before)))
+        raised = [r for (r, _o, _a, _b, _c) in snap if r["raises"]]
+        if raised:
+            chan = obs_errs if raised[0]["mech"] in ("obs", "nested") else legacy_errs
+            if not chan:
+                return viol("handler-exception-vanished", i, n,
+                            "raising handler %s left nothing on its exception channel" % raised[0]["id"])
+        elif legacy_errs or obs_errs:
+            return viol("unexpected-exception-on-channel", i, n, short((legacy_errs or obs_errs)[0], 200))
+        if not is_event and getattr(o, n) is not after:
+            return viol("value-unstable-after-assignment", i, n, "")
+    return False
